@@ -3,7 +3,7 @@ CONSTANTS
   N = 3
   NMin = 1
   D = 1
-  Vals = {0,1,2,3}
+  Vals = {0,1,3}
   Wts = {0,1,2}
   Totals <- MCTotals3
   Export = TRUE
